@@ -1293,6 +1293,13 @@ func (p *Printer) command(cmd Command, redirs []*Redirect) (startRedirs int) {
 			p.spacedToken(cmd.Op.String(), cmd.OpPos)
 			p.advanceLine(cmd.Y.Pos().Line())
 			p.stmt(cmd.Y)
+			// A comment after the command on its line, as in
+			// "foo | cat <<EOF # comment", belongs to cmd.Y.
+			for _, c := range cmd.Y.Comments {
+				if cmd.Y.Cmd != nil && c.End().After(cmd.Y.Cmd.End()) {
+					p.comments(c)
+				}
+			}
 			break
 		}
 		indent := !p.nestedBinary
